@@ -26,7 +26,8 @@ FRAGS = ['<', '>', '&', '"', "'", ';', '#', 'x', '0', '1', '9', 'a', 'z', ' ', '
          ']]>', '-->', '<!--', '<script>', '</script>', '<script>alert(1)</script>', '<![CDATA[', '<?x ?>',
          '&lt;', '&amp;', '&gt;', '&quot;', '&#60;', '&#x3c;', '&#0;', '&nbsp;', '&bogus;', '&lt', '&#',
          '<b onload="x">', "<a href='javascript:x'>", '\n', '\t', '\r', '\r\n', '\x0c', '\x0b', '\x01', '\x00',
-         '<zzq>', '</zzq>', '<zzq onzz="1">', '<zzq/>', '<zzq>x</zzq>', '<zzq onzz="1"/>', '&zzent;', ' zzattr="1" ', '\x1f', '\x1c', '\x7f', '\x85', '\xa0', '\xe9', '\u2028', '\ufffe', '\uffff', '\U0001f600', '\\', '\\x01']
+         '<zzq>', '</zzq>', '<zzq onzz="1">', '<zzq/>', '<zzq>x</zzq>', '<zzq onzz="1"/>', '<b>x</b>',
+         '<img src="zzq.png" onerror="x"/>', '--> <zzq/>', ']]> <zzq/>', '--> <zzq onzz="1"/>', '--> <script>zzq()</script>', '&zzent;', ' zzattr="1" ', '\x1f', '\x1c', '\x7f', '\x85', '\xa0', '\xe9', '\u2028', '\ufffe', '\uffff', '\U0001f600', '\\', '\\x01']
 TAGS = ['a', 'b', 'div', 'span', 'br', 'p', 'code', 'img', '', 'hr', 'wbr', 'li', 'td']
 ATTRS = ['href', 'class', 'title', 'id', 'data-x', 'src', 'name', 'alt']
 LEGAL = re.compile('[\x09\x0a\x0d\x20-\ud7ff\ue000-\ufffd\U00010000-\U0010ffff]*')
@@ -209,6 +210,35 @@ def oracle_reparse(case: Any, obs: Any) -> Optional[str]:
     return None
 
 
+def nul_dropped(t: str) -> str:
+    """docutils uses NUL as its internal escape marker: Text.astext() drops it (with a following space / newline)"""
+    return re.sub('\x00[ \n]?', '', t)
+
+
+def oracle_label(case: Any, obs: Any) -> Optional[str]:
+    """node2stan over the children of a reference (its label): the result holds one <span> per inline child and nothing
+    else -- every child's text appears as text, whatever it holds."""
+    items = case[1]
+    texts = ''.join(nul_dropped(it[1]) for it in items)
+    if any(ord(c) >= 32 and ILLEGAL1.match(c) for c in texts):
+        return None
+    if obs[0] in (0, 3):
+        if '\x0c' in texts or '\xa0' in texts:
+            return None      # the two known re-parse failures (form feed, no-break space), see fn 13
+        return 'node2stan fails on the label %r' % (items,)
+    if obs[0] != 1:
+        return 'unexpected %s' % (obs,)
+    els, ats, text = stan_names(obs[1])
+    want_els = ['span'] * sum(1 for it in items if it[0] == 1)
+    want_ats = ['span@class'] * sum(1 for it in items if it[0] == 1 and it[2])
+    if sorted(els) != want_els or sorted(ats) != want_ats:
+        return 'the text of a reference label became markup: elements %s attributes %s (expected %s %s)' % (
+            sorted(els), sorted(ats), want_els, want_ats)
+    if text != neutralised(texts):
+        return 'the label shows %r for the text %r' % (text, texts)
+    return None
+
+
 def oracle_starttag(case: Any, obs: Any) -> Optional[str]:
     """starttag(...): closing the tag gives well-formed XML whose only elements are the tag itself and the empty
     <span id> anchors of additional ids, and whose attribute names are (lower-cased) keyword names or
@@ -287,7 +317,8 @@ def parse(data: str, html_entities: bool = False) -> Any:
 # printable metacharacters only: none of these makes pydoctor take a fallback path or changes the layout of a value
 STRICT = ['<', '>', '&', '"', "'", ';', '#', 'x', '0', '9', 'a', 'z', '=', '/', ']]>', '-->', '<!--', '<script>', '</script>',
           '<![CDATA[', '&lt;', '&amp;', '&#60;', '&#x3c;', '&nbsp;', '&bogus;', '&lt', '&#', '<zzq onzz="1">', '&zzent;', '<b onload="x">', '<zzq/>',
-          '<zzq>x</zzq>', '<zzq onzz="1"/>']
+          '<zzq>x</zzq>', '<zzq onzz="1"/>', '<b>x</b>', '<img src="zzq.png" onerror="x"/>', '--> <zzq/>', ']]> <zzq/>',
+          '--> <zzq onzz="1"/>', '--> <script>zzq()</script>', '<!-- x --> <zzq/>', '<i>zzq</i>']
 DOCFORMATS = ['epytext', 'restructuredtext', 'google', 'numpy', 'plaintext']
 BENIGN = 'x x'
 
@@ -314,6 +345,26 @@ def doctest_block(fmt: str, payload: str) -> str:
     if fmt == 'plaintext':
         return ''
     return '\n\n>>> value = 1 # note %s\n>>> value\n1\n' % payload
+
+
+def markup_doc(fmt: str, pl: Dict[str, Any]) -> str:
+    """a docstring whose payloads sit INSIDE docstring markup constructs: the explicit label of a cross-reference and of a
+    hyperlink, inline code / emphasis, and -- reStructuredText family -- a role with a label, a comment, a substitution
+    definition, a footnote and a hyperlink target"""
+    if fmt == 'epytext':
+        return ('Use L{%s <func>} and U{%s <http://example.org/x>} or C{%s} and I{%s} here.\n\n'
+                'Also L{%s <pkg.C.m>}, B{%s}, U{%s <http://example.org/%s>}.\n'
+                % (pl['lab0'], pl['lab1'], pl['lab2'], pl['lab3'], pl['com'], pl['sub'], pl['foot'], pl['tgt']))
+    if fmt == 'plaintext':
+        return 'Use %s and %s or %s and %s here. %s %s %s %s\n' % (
+            pl['lab0'], pl['lab1'], pl['lab2'], pl['lab3'], pl['com'], pl['sub'], pl['foot'], pl['tgt'])
+    return ('Use `%s <func>` and `%s <http://example.org/x>`_ or :py:func:`%s <func>` and ``%s`` here.\n\n'
+            '.. note: %s\n\n'
+            '.. |sub| replace:: %s\n\n'
+            'Text |sub| and [1]_ and target_ end.\n\n'
+            '.. [1] Footnote %s here.\n\n'
+            '.. _target: http://example.org/%s\n'
+            % (pl['lab0'], pl['lab1'], pl['lab2'], pl['lab3'], pl['com'], pl['sub'], pl['foot'], pl['tgt'].replace(' ', '')))
 
 
 def project(fmt: str, pl: Dict[str, Any]) -> Dict[str, Any]:
@@ -354,6 +405,10 @@ def project(fmt: str, pl: Dict[str, Any]) -> Dict[str, Any]:
             r(pl['annot']), r(pl['default']), r(pl['default2']), r(pl['const']), r(pl['default'])),
         '    ' + r(doc),
     ]
+    init += ['def links():', '    ' + r('Links summary.\n\n' + markup_doc(fmt, pl))]
+    if pl.get('extra') is not None:
+        # one more docstring, taken as it is (dedicated projects for classes of docstring markup)
+        init += ['def extra():', '    ' + r('Extra summary.\n\n' + pl['extra'])]
     if pl.get('depr') is not None:
         init += ['@deprecated(Version("pkg", 1, 2, 3), replacement=%s)' % r(pl['depr']),
                  'def old():',
@@ -367,7 +422,9 @@ def project(fmt: str, pl: Dict[str, Any]) -> Dict[str, Any]:
 
 
 SITES = ['modname', 'doc0', 'doc1', 'doc2', 'doc3', 'doc4', 'doc5', 'doc6', 'const', 'default', 'default2', 'annot',
-         'annot_str', 'deco', 'deco_kw', 'base_arg', 'attr_doc', 'depr', 'dict_key', 'bytes']
+         'annot_str', 'deco', 'deco_kw', 'base_arg', 'attr_doc', 'depr', 'dict_key', 'bytes',
+         'lab0', 'lab1', 'lab2', 'lab3', 'com', 'sub', 'foot', 'tgt']
+MARKUP_SITES = ('lab0', 'lab1', 'lab2', 'lab3', 'com', 'sub', 'foot', 'tgt')
 # characters that are markup (not words) in a docstring of some docformat, or that end lines: kept out of docstring payloads
 DOC_MARKUP = set('{}@`*_|:\\\n\r\x0b\x0c\x1c\x1d\x1e\x85\u2028\u2029')
 # characters a file name cannot hold / that change what pydoctor takes as the module name
@@ -386,7 +443,8 @@ def totals(res: Dict[str, Any]) -> Dict[str, Dict[str, int]]:
 TAINT = re.compile('zzq|onzz|zzent|zzattr')
 
 
-def oracle_project(job: Dict[str, Any], res: Dict[str, Any], base: Dict[str, Any], strict: bool, depr_site: bool = False) -> Optional[str]:
+def oracle_project(job: Dict[str, Any], res: Dict[str, Any], base: Dict[str, Any], strict: bool, depr_site: bool = False,
+                   new_names: bool = True) -> Optional[str]:
     """The property on one whole run, observed from the written pages:
       * every page is well-formed XML once characters illegal in XML are set aside;
       * no element, attribute or entity carries one of the marker names that only payloads hold (zzq, onzz, zzent, zzattr);
@@ -407,7 +465,7 @@ def oracle_project(job: Dict[str, Any], res: Dict[str, Any], base: Dict[str, Any
         if t:
             return 'payload text became markup: %s %s' % (kind, t)
         new = sorted(k for k in a[kind] if k not in b[kind])
-        if new:
+        if new and new_names:
             return 'payload text became markup: %s %s do not occur with the harmless payload' % (kind, new)
     ha = sorted(set(h for p in res['pages'].values() for h in p['handlers']))
     hb = sorted(set(h for p in base['pages'].values() for h in p['handlers']))
@@ -519,7 +577,22 @@ class Check(PropertyCheck):
         for s in strings[::7]:
             out.append([14, [s, None]])
             out.append([14, [s, ['c1']]])
-        return out
+        # node2stan over a LIST of nodes (the children of a reference: its label): Text leaves and inline nodes
+        wf = ['<zzq/>', '<zzq onzz="1"/>', '<b>x</b>', '<img src="x" onerror="zzattr()"/>', 'the <b>old</b> one', '&lt;', '&amp;',
+              '<zzq>x</zzq>', 'x', ' ', '<', '&', '--> <zzq/>', '<!-- c -->', '<![CDATA[x]]>', '\x01', '"', "'"]
+        front = []
+        for t in wf:
+            front.append([15, [[0, t, []]]])
+            front.append([15, [[0, 'see ', []], [1, t, ['c1']], [0, t, []]]])
+        n15 = 200 if self.tier == 'quick' else 5000
+        for _ in range(n15):
+            items = []
+            for _ in range(self.rng.randint(1, 4)):
+                t = self.adv(3, wf + FRAGS) if self.rng.random() < 0.7 else self.rng.choice(wf)
+                t = ''.join(ch for ch in t if not (0xD800 <= ord(ch) < 0xE000))
+                items.append([0, t, []] if self.rng.random() < 0.6 else [1, t, self.rng.choice([[], ['c1'], ['a', 'b']])])
+            out.append([15, items])
+        return front + out
 
     # raw XML: serialise random trees with varying lexical forms, then corrupt some
     def raw_xml(self, depth: int) -> str:
@@ -686,12 +759,26 @@ class Check(PropertyCheck):
             elif fn == 13:
                 minputs.append(enc([5, c[1]]))
                 mindex.append((i, 'enc'))
+            elif fn == 15:
+                for k, item in enumerate(c[1]):
+                    minputs.append(enc([5, nul_dropped(item[1])]))
+                    mindex.append((i, 'enc%d' % k))
         mres = self.model('stan', minputs) if not oracle_only else []
         by_case: Dict[int, Dict[str, Any]] = {}
         for (i, tag), r in zip(mindex, mres):
             by_case.setdefault(i, {})[tag] = dec(r)
         # second round for fn 13: html2stan of the model's own encode output
         second = [(i, enc([8, d['enc']])) for i, d in by_case.items() if 'enc' in d]
+        for i, d in by_case.items():
+            if 'enc0' in d:
+                html = ''
+                for k, item in enumerate(cases[i][1]):
+                    piece = m_text(d['enc%d' % k])
+                    if item[0] == 1:
+                        cls = ' '.join('rst-' + x for x in item[2])
+                        piece = ('<span class="%s">' % cls if cls else '<span>') + piece + '</span>'
+                    html += piece
+                second.append((i, enc([8, html])))
         if second:
             for (i, _), r in zip(second, self.model('stan', [s for _, s in second])):
                 by_case[i]['h2s'] = dec(r)
@@ -800,6 +887,23 @@ class Check(PropertyCheck):
                 if msg:
                     self.viol(out, 'oracle', msg, c, observed=o)
                 self.count('node2stan_%s' % o[0])
+            elif fn == 15:
+                msg = oracle_label(c, o)
+                if msg:
+                    self.viol(out, 'oracle', msg, c, observed=o)
+                self.count('node2stan_list_%s' % o[0])
+                if oracle_only:
+                    continue
+                mm = m.get('h2s')
+                if mm is None:
+                    continue
+                if mm[0] == 1:
+                    ms = m_stan(mm[1])
+                    mo = [1, [1, ms[1], ms[2], canon_kids(ms[3])]]
+                else:
+                    mo = [0]
+                if mo != o and o[0] != 3:
+                    self.viol(out, 'correspondence', 'model (encode per text, html2stan of the whole) and real node2stan(list of nodes) disagree', c, mo, o)
         if not oracle_only:
             out += self.validate_xml_spec()
             if self.tier == 'thorough':
@@ -891,7 +995,7 @@ class Check(PropertyCheck):
                     p = self.adv(3, STRICT)
                 if not p:
                     p = self.rng.choice(STRICT)
-            if site.startswith('doc') or site == 'attr_doc':
+            if site.startswith('doc') or site == 'attr_doc' or site in MARKUP_SITES:
                 p = ''.join(ch for ch in p if ch not in DOC_MARKUP).strip()
                 p = re.sub(r'\s+', ' ', p)
                 if p.startswith('>>>') or not p:
@@ -911,12 +1015,14 @@ class Check(PropertyCheck):
             elif site == 'annot_str':
                 p = ') ' + p   # a string annotation that is not an expression, like the harmless one
             pl[site] = ''.join(ch for ch in p if not (0xD800 <= ord(ch) < 0xE000))
+        pl['extra'] = 'Formula x x here.'
         return pl
 
     def benign(self, fmt: str, with_depr: bool = True) -> Dict[str, Any]:
         pl = {s: BENIGN for s in SITES}
         pl['modname'] = 'x x'
         pl['depr'] = 'x-x'
+        pl['extra'] = 'Formula x x here.'
         if not with_depr:
             pl['depr'] = None
         return pl
@@ -933,10 +1039,29 @@ class Check(PropertyCheck):
             pl = {s: '<script>alert(1)</script>&lt;]]>-->"\'\x01' for s in SITES}
             pl['modname'] = '<b>&amp;"\''
             pl['depr'] = 'x-x'
+            pl['extra'] = 'Formula x x here.'
             for s in SITES:
-                if s.startswith('doc') or s == 'attr_doc':
+                if s.startswith('doc') or s == 'attr_doc' or s in MARKUP_SITES:
                     pl[s] = '<script>alert(1)</script>&lt;]]>-->"\'&nbsp;\x01'
             jobs.append({'kind': 'wild', 'fmt': fmt, 'payloads': pl})
+        # well-formed markup as the label of a cross-reference / hyperlink, and behind a comment / CDATA delimiter
+        for fmt in DOCFORMATS:
+            pl = self.benign(fmt)
+            pl.update(lab0='<img src="x" onerror="zzattr()"/>', lab1='the <b>old</b> one', lab2='<zzq onzz="1"/>',
+                      lab3='<zzq>x</zzq>', com='old --> <script>zzq()</script>', sub='<b>x</b> --> <zzq/>',
+                      foot=']]> <zzq onzz="1"/>', tgt='<zzq/>')
+            jobs.insert(0, {'kind': 'strict', 'fmt': fmt, 'payloads': pl})
+        # classes of docstring MARKUP that reach the page as live script (known findings on the unchanged tree)
+        for fmt, cls, text in [
+                ('restructuredtext', 'math-text', 'Formula :math:`\\text{<zzq onzz="1">x</zzq>}` here.'),
+                ('restructuredtext', 'math-text', 'Formula:\n\n.. math::\n\n   \\text{<b onclick="zzattr()">bold</b>} + 1\n'),
+                ('epytext', 'math-text', 'Formula M{\\text{<zzq onzz="1">x</zzq>}} here.'),
+                ('restructuredtext', 'script-url', 'Word javascript:zzattr() here.'),
+                ('restructuredtext', 'script-url', 'See `label <javascript:zzattr()>`_ here.'),
+                ('epytext', 'script-url', 'See U{label <javascript:zzattr()>} here.')]:
+            pl = self.benign(fmt)
+            pl['extra'] = text
+            jobs.append({'kind': 'strict', 'fmt': fmt, 'payloads': pl, 'site': 'extra', 'class': cls})
         # the decorator-argument site, end to end: texts that would leave their reST literal if the clean-up of
         # extensions.deprecate were weaker (line separators, blank line + explicit markup, back-quotes, edge white space)
         for depr in ['a\r\r   .. raw:: html\r\r      <script>alert(1)</script>\r\r   x',
@@ -969,7 +1094,7 @@ class Check(PropertyCheck):
                 self.nontrivial.add(json.dumps(j['payloads'], sort_keys=True))
             if msg:
                 self.viol(out, 'oracle', msg, {'project': spec, 'payloads': j['payloads'], 'docformat': j['fmt'], 'strict': j['kind'] == 'strict',
-                           'depr_site': j.get('site') == 'depr'},
+                           'depr_site': j.get('site') == 'depr', 'class': j.get('class')},
                           observed={k: v for k, v in r.items() if k != 'pages'})
         if specs:
             self.sample({'project_files': list(specs[1]['files'].keys()), 'payloads': jobs[1]['payloads']})
@@ -1001,6 +1126,26 @@ class Check(PropertyCheck):
     def classify_known(self, v: Violation, known: List[dict]) -> Optional[dict]:
         for k in known:
             m = k.get('match', {})
+            if m.get('kind') == 'docstring-markup-class':
+                c = v.case
+                if v.kind == 'oracle' and isinstance(c, dict) and c.get('class') == m['class'] and 'payloads' in c:
+                    pl = c['payloads']
+                    text = pl.get('extra') or ''
+                    others = all(pl[s] == (BENIGN if s not in ('depr',) else 'x-x') for s in SITES)
+                    if others and m['trigger'] in text:
+                        # exactly this class: the same docstring with the trigger defused passes the oracle on the real code
+                        key = json.dumps([c['docformat'], text])
+                        if key not in self._known_cache:
+                            pl2 = dict(pl)
+                            pl2['extra'] = text.replace(m['trigger'], m['defused'])
+                            r2, b2 = lib.run_impl_worker('c10_project.py', [project(c['docformat'], pl2),
+                                                                            project(c['docformat'], self.benign(c['docformat']))])
+                            # (the defused docstring still is markup -- a link, a formula --: only well-formedness,
+                            # marker names and script handlers are asked of it)
+                            self._known_cache[key] = oracle_project({}, r2, b2, False, new_names=False) is None
+                        if self._known_cache[key]:
+                            return k
+                continue
             if m.get('kind') == 'reparse-fails-on-char':
                 c = v.case
                 if v.kind == 'oracle' and isinstance(c, list) and len(c) == 2 and c[0] in (13, 14):
